@@ -11,7 +11,7 @@ ID = "C13"
 LEVEL = "exploration"
 TECHNIQUE = "reference-model monitor: brute-force CFG membership / parse-tree oracle and textbook FIRST + canonical LR(1) (R6) vs the real table generator and parser driver on random small grammars with all short inputs, under ASan+UBSan"
 FLAVOURS = [("asan", "generated")]
-RULE = ("random context-free grammars (<= 3 non-terminals, <= 3 terminals, <= 9 rules; plus larger ones with 4-6 non-terminals rich in unit and epsilon rules, short inputs; right-hand sides <= 5 symbols, with epsilon rules, left/right "
+RULE = ("random context-free grammars (<= 3 non-terminals, <= 3 terminals, <= 9 rules; plus larger ones with 4-6 non-terminals rich in unit and epsilon rules, short inputs; right-hand sides <= 5 symbols, with epsilon rules (also written with explicit, repeated epsilon symbols inside a right-hand side), left/right "
         "recursion, useless and rule-less symbols), each in full or prefix mode, with ALL end-marked inputs up to length L (quick 5, thorough 7) over "
         "the terminals up to the largest index used, and for 70% of the grammars (and ten textbook recursive grammars, nesting up to 1200) whose reference canonical LR(1) table is conflict-free also words from random derivations nested "
         "20-400 levels deep (up to ~600 tokens) with damaged copies, judged by the reference LR run cross-checked against the generating derivation; conflict-free grammar: accept iff the input (prefix mode: some prefix) is in the language and "
@@ -216,7 +216,14 @@ def _work(spec):
         inputs = [list(w) for n in range(0, lim + 1) for w in itertools.product(range(1, maxt + 1), repeat=n)] if maxt else [[]]
         opts = [("g", "%d %d %d" % (nnt, prefix, 0))]
         for l, r in rules:
-            opts.append(("r", "%d %d %s" % (l, len(r), " ".join(x[0] + str(x[1]) for x in r))))
+            syms = [x[0] + str(x[1]) for x in r]
+            if rnd.random() < 0.15:
+                # the same rule written with explicit epsilon symbols (single ones and runs of two or three, anywhere in the
+                # right-hand side): they derive nothing and contribute no value
+                for _e in range(rnd.randint(1, 3)):
+                    pos = rnd.randint(0, len(syms))
+                    syms[pos:pos] = ["e0"] * rnd.choice([1, 2, 2, 3])
+            opts.append(("r", "%d %d %s" % (l, len(syms), " ".join(syms))))
         longs = long_inputs(rnd, rules, nnt, maxt, 6 if classic else 2, [20, 60, 150, 400, 1200] if classic else [20, 60, 150, 400]) \
             if maxt and (classic or rnd.random() < 0.7) else []
         for w in inputs:
